@@ -14,7 +14,8 @@ import (
 // What counts as scratch is decided by *field name*: a struct field whose lower-cased name starts with
 // "buf", "tmp" or "pool" (BuffQP, BuffCt, BuffInvNTT, BuffDecompQP, BuffBitDecomp, buffQ, buffQMul,
 // buffP, bufQ, bufT, bufB, buff, buffCmplx, buffQP, bufSkIn, bufSkOut, buf, tmp0.., poolMod2N), plus
-// the ckks encoder's bigintCoeffs (scratch by its use: overwritten at the start of every encode/decode).
+// the ckks encoder's bigintCoeffs and the mpckks protocols' maskBigint / ssBigint (scratch by their use:
+// overwritten at the start of every call that reads them).
 // Everything reachable below such a field is filled; nothing else is touched. The walk does not enter
 // rings, parameters, keys, samplers or PRNGs (read-only or stateful-by-design objects).
 
@@ -28,7 +29,8 @@ const (
 
 func isScratchName(n string) bool {
 	l := strings.ToLower(n)
-	return strings.HasPrefix(l, "buf") || strings.HasPrefix(l, "tmp") || strings.HasPrefix(l, "pool") || n == "bigintCoeffs"
+	return strings.HasPrefix(l, "buf") || strings.HasPrefix(l, "tmp") || strings.HasPrefix(l, "pool") ||
+		n == "bigintCoeffs" || n == "maskBigint" || n == "ssBigint"
 }
 
 // types the search never enters
